@@ -199,8 +199,11 @@ def handshake_histories(rng, props, n, full=False):
             elif r < 0.40:
                 sc.supdate(rng.choice([100, 250, 1000]))
             elif r < 0.50:
-                # replay / re-address something recorded earlier
-                sc.sdeliver(rng.randint(1, 30), from_=rng.choice([None, None, 1, 2, 3, 4]))
+                # replay / re-address something recorded earlier, sometimes repeatedly from the same other address
+                d = rng.randint(1, 30)
+                frm = rng.choice([None, None, 1, 2, 3, 4])
+                for _ in range(rng.choice([1, 1, 2, 3])):
+                    sc.sdeliver(d, from_=frm)
             elif r < 0.62:
                 # cross-use: a response sealed with the attacker's own keys that echoes a challenge issued for another session
                 sc.add(a="scraft", kind="Response", tok=rng.choice(["TA", "TB", "TV2"]), seq=rng.choice([1, 2, 7]), chal_from=rng.randint(1, 30),
@@ -452,6 +455,33 @@ def lossy_handshake(sc, rng, c, dt, rounds, loss, dup=0.1):
             sc.cdeliver(c, "lastto:" + c)
 
 
+def proto_bit_schedules(rng, props):
+    """Sealed datagrams opened under a protocol id that differs in one bit (all 64 bits): server side through packets sealed
+    with the session's own key for the other protocol id, client side through a client whose copy of the token carries it."""
+    out = []
+    sc = NS("protobits-server", props, max_clients=3)
+    sc.connect("c1", "T1", 11, 1)
+    sc.supdate(300)
+    for bit in range(64):
+        pid = 7 ^ (1 << bit)
+        for kind in ("Payload", "KeepAlive", "Disconnect"):
+            sc.add(a="scraft", kind=kind, tok="T1", seq=20 + bit, tag=8000 + bit, len=8, pid=str(pid), **{"from": 1}, nonauth=True, shape="proto_bit", ctx="connected")
+        sc.add(a="ccraft", c="c1", kind="Payload", tok="T1", dir="s2c", seq=20 + bit, tag=8100 + bit, len=8, pid=str(pid), nonauth=True, shape="proto_bit", ctx="client_connected")
+    sc.pump(["c1"], dt=100, n=2)
+    out.append(sc.s)
+    for lo in range(0, 64, 16):
+        sc = NS("protobits-client-%d" % lo, props, max_clients=3)
+        for bit in range(lo, lo + 16):
+            # the client holds the right keys but another protocol id: a challenge sealed for protocol 7 must not open
+            sc.token("T%d" % bit, 11 + bit, tamper={"field": "proto_only", "value": str(7 ^ (1 << bit))})
+            sc.client("c%d" % bit, "T%d" % bit, 1)
+            sc.cupdate("c%d" % bit, 100)
+            sc.add(a="ccraft", c="c%d" % bit, kind="Challenge", tok="T%d" % bit, dir="s2c", seq=0, pid="7", chal_from=0, cid=11 + bit, cud=1, cseq=1,
+                   nonauth=True, shape="proto_bit", ctx="client_requesting")
+        out.append(sc.s)
+    return out
+
+
 def liveness_schedules(rng, props, n, full=False):
     out = []
     for i in range(n):
@@ -482,6 +512,12 @@ def liveness_schedules(rng, props, n, full=False):
             sc.token("T1", 11, hosts=(2, 1), timeout_s=max(1, timeout), expire_s=120)   # address 2 is silent, 1 is the live server
             sc.client("c1", "T1", 1)
             to = max(1, timeout)
+            # the first address stays silent for the whole timeout, then the first exchanges with the live one are lossy
+            silent = (to * 1000) // dt + 1          # the update after which the client gives up on the first address
+            for _ in range(silent):
+                sc.cupdate("c1", dt)
+                sc.supdate(dt)
+            lossy_handshake(sc, rng, "c1", dt, min(rng.randint(1, 3), max(0, (to * 1000 - 2 * dt) // dt - 1)), rng.choice([0.5, 1.0]))
             b = 2 * (2 * -(-250 // dt) + 2) + -(-(to * 1000) // dt) + 6
             sc.heal(["c1"], b)
             sc.pump(["c1"], dt=dt, n=b + 2)
